@@ -358,7 +358,14 @@ func (ci *ConstructorInvoker) invokeWithRecovery(info *ConstructorInfo, fn refle
 		}
 	}()
 
-	results = fn.Call(args)
+	// A variadic constructor (func(deps..., xs ...T)) declares its last
+	// parameter as a dependency on the slice []T: the resolved slice is passed
+	// on as the variadic argument list
+	if fn.Type().IsVariadic() {
+		results = fn.CallSlice(args)
+	} else {
+		results = fn.Call(args)
+	}
 	return results, nil
 }
 
